@@ -76,6 +76,16 @@ def rcolor(rng):
         return "p%d" % rng.choice([0, 1, 2, 31, 62, 63, rng.below(64), rng.choice([64, 69, 127, 128, 197, 255])])
     if r < 9:
         return "c%d" % rng.choice([0, 1, 2, 31, 62, 63, rng.below(64), rng.choice([64, 69, 127, 128, 197, 255])])
+    if rng.below(3) == 0:
+        # blends whose three bytes look like another colour form's bytes (nibble-doubled, on the 1-byte grid, all equal)
+        k = rng.below(3)
+        if k == 0:
+            b3 = [0x11 * rng.below(16) for _ in range(3)]
+        elif k == 1:
+            b3 = [rng.choice([0x00, 0x40, 0x80, 0xc0, 0xff]) for _ in range(3)]
+        else:
+            b3 = [rng.below(256)] * 3
+        return "b%02x%02x%02x" % tuple(b3)
     return "b%02x%02x%02x" % (rng.choice([0, 1, 64, 127, 128, 191, 254, 255, rng.below(256)]), rng.below(256), rng.below(256))
 
 
